@@ -114,6 +114,10 @@ func ProfileOpts(p string) RandomOpts {
 		return RandomOpts{EnvProb: 0.3, EnvBudget: 5, AllowPause: true, AllowArchive: true, AllowCRDelete: true, Settle: true}
 	case "race": // C05: third party acts between PKO's read and its delete
 		return RandomOpts{EnvProb: 0.25, EnvBudget: 8, AllowReown: true, AllowCRDelete: true, AllowArchive: true, AllowOrphan: true, Race: true, Settle: true}
+	case "deploy": // C07, C08: template edits, lagging cache for creates, faults and crashes around the create
+		return RandomOpts{EnvProb: 0.35, EnvBudget: 3, TemplateEdits: 4, Lag: true, Faults: 2, Crashes: 1, Settle: true}
+	case "deploy-pause": // C09 propagation
+		return RandomOpts{EnvProb: 0.35, EnvBudget: 2, TemplateEdits: 6, AllowPause: true, Settle: true}
 	case "chaos": // C10
 		return RandomOpts{EnvProb: 0.3, EnvBudget: 4, Faults: 3, Crashes: 2, Settle: true}
 	case "all":
